@@ -42,6 +42,8 @@ def correspondence(ctx, batch):
         cmps = common.cmps_choice(rng)
         if i % 8 == 0:
             samples, cmps = gen.gen_chain_samples(rng), []
+        elif i % 8 == 2:
+            samples, cmps = gen.gen_literal_boundary(rng), []
         elif i % 8 == 1:
             samples, cmps = [{k: v} for k, v in gen.gen_two_pass_merge(rng).items()], []
         for v in [samples] + variants(rng, samples, 3):
@@ -129,6 +131,8 @@ def falsify(ctx):
         cmps = common.cmps_choice(rng)
         if r > .92:
             samples, cmps = gen.gen_chain_samples(rng), []
+        elif r > .78 and r <= .84:
+            samples, cmps = gen.gen_literal_boundary(rng), []
         elif r > .84:
             # similar nested models introduced by different samples: a required field of type X in one, an already
             # optional union in the other — which one the registry meets first follows the sample order
